@@ -99,6 +99,10 @@ def build(thorough):
             for k in range(3):
                 obs.append(Ob(f'update_twice[old=1,new=2,final={fn},new0={k}]', HE, 'update_twice', T,
                               env=dict(e2, VH_OLDN=1, VH_NEWN=2, VH_FINN=fn, VH_NEW0=k)))
+    # two updates in a row where one statement prints as several nodes (records produced by an earlier update)
+    for k in range(3):
+        obs.append(Ob(f'update_twice[multi-node statement,old=1,new=2,final=2,new0={k}]', HE, 'update_twice', T,
+                      env=dict(e2, VH_OLDN=1, VH_NEWN=2, VH_FINN=2, VH_NEW0=k, VH_MULTI=1)))
     # ---- (5) AttrTree edit helpers
     km = 4 if thorough else 3
     for f in ('helper_remove_token_and_space', 'helper_insert', 'helper_replace', 'helper_partition'):
